@@ -234,6 +234,28 @@ theorem rowAwayB_sound {loc : Nat → Int} {cap : Nat → Nat} {t1 t2 : Nat} {a 
       · exact isScr_addr hs x hbx
       · exact absurd hbx (disjointB_sound hd x hx)
 
+/-- **a level under an arbitrary thread order, waveform evaluator, modulo the scratch slots** `t1`, `t2`: rows with output
+    capacity ≥ 2 that read no scratch memory (`rowScrFreeB`) and are pairwise independent modulo scratch (`pairIndepJB`) -/
+theorem level_any_order_wave_modscratch (g : WCfg) (loc : Nat → Int) (t1 t2 : Nat) (ops : List AOp) (opStart opStop sims : Nat)
+    (hcap : ∀ y, y < opStop - opStart → 2 ≤ g.cap (ops.getD (opStart + y) default).op.out)
+    (hscr : ∀ y, y < opStop - opStart → rowScrFreeB loc g.cap t1 t2 (ops.getD (opStart + y) default).op = true)
+    (hind : ∀ y y', y < opStop - opStart → y' < opStop - opStart → y ≠ y' →
+      pairIndepJB loc g.cap t1 t2 (ops.getD (opStart + y) default).op (ops.getD (opStart + y') default).op = true)
+    (l : List (Nat × Nat)) (hl : l.Perm (cpuLoop sims (opStop - opStart))) (S : Nat → LaneSt) (k : Nat) :
+    EqJ (scrAddr loc g.cap t1 t2) (runLanes (evalWork (evWave (fun _ => g) loc) ops opStart) l S k)
+      (cpuLevel (evWave (fun _ => g) loc) ops opStart opStop 0 sims S k) := by
+  refine level_any_order_modJ (evWave (fun _ => g) loc) (scrAddr loc g.cap t1 t2)
+    (fun o a => ∃ i ∈ o.ins, inRegion loc g.cap i a) (fun o a => inRegion loc g.cap o.out a) ops opStart opStop sims
+    ?_ ?_ ?_ l hl S k
+  · intro y hy
+    exact evWave_opLocal g loc _ (hcap y hy)
+  · intro y hy x hx
+    exact rowScrFreeB_sound (hscr y hy) x hx
+  · intro y y' hy hy' hne
+    have h := hind y y' hy hy' hne
+    simp only [pairIndepJB, Bool.and_eq_true] at h
+    exact rowAwayB_sound h.1 (hscr y' hy')
+
 end KV.WaveIO
 
 /-! ### the conditions follow from the map certificate -/
@@ -342,5 +364,55 @@ theorem out_cap_of_check (p : MapIn) (h : p.check = none) {k : Nat} {o : OpRow} 
     · exact (scratch_caps_of_check p h).1
     · exact (scratch_caps_of_check p h).2
   · exact hg.inb _ (mem_tracked_of_out p hk (by simpa using hj))
+
+/-- the rows between two neighbouring entries of `level_starts` lie in one level -/
+theorem oneLevelB_of_gap (p : MapIn) (a b : Nat) (h : ∀ t ∈ p.starts, t ≤ a ∨ b ≤ t) : p.oneLevelB a b = true := by
+  simp only [oneLevelB, List.all_eq_true, List.mem_range, beq_iff_eq]
+  intro y hy
+  unfold levelOf
+  congr 1
+  apply List.filter_congr
+  intro t ht
+  rcases h t ht with h' | h'
+  · have e1 : t ≤ a + y := by omega
+    simp [h', e1]
+  · have e1 : ¬ t ≤ a + y := by omega
+    have e2 : ¬ t ≤ a := by omega
+    simp [e1, e2]
+
+theorem getD_op_of_map {ops : List AOp} {rows : List OpRow} (h : ops.map (·.op) = rows) {i : Nat} (hi : i < rows.length) :
+    rows[i]? = some (ops.getD i default).op := by
+  subst h
+  rw [List.length_map] at hi
+  rw [List.getElem?_map, List.getD_eq_getElem?_getD, List.getElem?_eq_getElem hi]
+  rfl
+
+/-- **a level of an ACCEPTED table under an arbitrary thread order** (see `C07.level_threads_any_order`) -/
+theorem level_any_order_of_check (p : MapIn) (hc : p.check = none) (hmin : 2 ≤ p.capsMin)
+    (delay : Nat → Bool → Bool → Int) (ops : List AOp) (hops : ops.map (·.op) = p.ops)
+    (opStart opStop sims : Nat) (hstop : opStop ≤ p.ops.length) (hlev : p.oneLevelB opStart opStop = true)
+    (l : List (Nat × Nat)) (hl : l.Perm (Grid.cpuLoop sims (opStop - opStart))) (S : Nat → LaneSt) (k : Nat) :
+    EqJ (scrAddr p.loc p.cap p.ix.tmp p.ix.tmp2)
+      (Grid.runLanes (evalWork (evWave (fun _ => ⟨delay, p.cap⟩) p.loc) ops opStart) l S k)
+      (cpuLevel (evWave (fun _ => ⟨delay, p.cap⟩) p.loc) ops opStart opStop 0 sims S k) := by
+  have hg := good_of_check p hc
+  have hrow : ∀ y, y < opStop - opStart → p.ops[opStart + y]? = some (ops.getD (opStart + y) default).op :=
+    fun y hy => getD_op_of_map hops (by omega)
+  have hl' : ∀ y, y < opStop - opStart → p.levelOf (opStart + y) = p.levelOf opStart := by
+    intro y hy
+    simp only [oneLevelB, List.all_eq_true, List.mem_range, beq_iff_eq] at hlev
+    exact hlev y hy
+  refine level_any_order_wave_modscratch ⟨delay, p.cap⟩ p.loc p.ix.tmp p.ix.tmp2 ops opStart opStop sims ?_ ?_ ?_ l hl S k
+  · intro y hy
+    have := out_cap_of_check p hc (hrow y hy)
+    show 2 ≤ p.cap _
+    omega
+  · intro y hy
+    exact rowScrFree_of_good hg (hrow y hy)
+  · intro y y' hy hy' hne
+    have e : p.levelOf (opStart + y) = p.levelOf (opStart + y') := (hl' y hy).trans (hl' y' hy').symm
+    simp only [pairIndepJB, Bool.and_eq_true]
+    exact ⟨rowAway_of_good hg (hrow y hy) (hrow y' hy') (by omega) e,
+      rowAway_of_good hg (hrow y' hy') (hrow y hy) (by omega) e.symm⟩
 
 end KV.MapSound
